@@ -87,6 +87,40 @@ def interval_at(node, func, var):
     return iv
 
 
+def check_zero_bound_bit_pattern(r, repo, f, rule="R19.7"):
+    """A branch of real_samples that is entered under a *non-strict* comparison of a bound with zero (`min_value >= dtype(0)`,
+    `max_value <= -dtype(0)`) is also entered with the zero of the other sign: -0.0 >= 0 and 0.0 <= -0 are true.  The bit pattern of
+    that bound then has the wrong sign bit; used as the start of an unsigned integer range it puts every sample outside the
+    requested bounds.  So inside such a branch `<bound>.view(<unsigned type>)` must be taken from a sign-normalised value
+    (abs(.), -abs(.), copysign) - the other bound of the branch cannot be a zero (the bounds differ and are ordered)."""
+    n = 0
+    for node in ast.walk(f):
+        if not isinstance(node, ast.If):
+            continue
+        t = node.test
+        if not (isinstance(t, ast.Compare) and len(t.ops) == 1 and isinstance(t.ops[0], (ast.GtE, ast.LtE)) and isinstance(t.left, ast.Name)):
+            continue
+        c = t.comparators[0]
+        inner = c.operand if isinstance(c, ast.UnaryOp) and isinstance(c.op, ast.USub) else c
+        is_zero = (isinstance(inner, ast.Constant) and inner.value == 0) or (isinstance(inner, ast.Call) and len(inner.args) == 1 and isinstance(inner.args[0], ast.Constant) and inner.args[0].value == 0)
+        if not is_zero:
+            continue
+        bound = t.left.id
+        views = [v for st in node.body for v in ast.walk(st) if isinstance(v, ast.Call) and isinstance(v.func, ast.Attribute) and v.func.attr == "view"]
+        raw = [v for v in views if isinstance(v.func.value, ast.Name) and v.func.value.id == bound]
+        normalised = [v for v in views if not isinstance(v.func.value, ast.Name) and any(isinstance(x, ast.Name) and x.id == bound for x in ast.walk(v.func.value))
+                      and any(isinstance(x, ast.Call) and (dotted(x.func) or "").split(".")[-1] in ("abs", "fabs", "absolute", "copysign") for x in ast.walk(v.func.value))]
+        if not raw and not normalised:
+            continue
+        n += 1
+        r.ob(rule, f"{REL}::real_samples branch `{norm_src(t)}` takes the bit pattern of a sign-normalised `{bound}`", not raw,
+             f"the branch is entered for `{bound}` equal to the zero of the other sign as well (`{norm_src(t)}` does not see the sign of zero) and uses `{norm_src(raw[0]) if raw else ''}`: "
+             "the bit pattern of that zero has the wrong sign bit, the unsigned range starts at the wrong end and the samples leave the requested bounds "
+             "(real_samples(10, min_value=-0.0, max_value=2) starts at -1e26)", loc(REL, raw[0] if raw else node))
+    if n < 2:
+        raise AnalysisError(f"real_samples: only {n} single-sign branches entered under a comparison of a bound with zero were recognised")
+
+
 def run(repo, tier):
     r = Report("C19", tier, repo, level="other", design_ref="§3/C19")
     r.explanation = (
@@ -101,6 +135,7 @@ def run(repo, tier):
     r.rule("R19.3", "real_samples: every returning path whose value is built from min_value/max_value passes the include_subnormal bound adjustment first", floor=1)
     r.rule("R19.4", "real_samples: the bit-pattern offset of every sample is computed in exact integer arithmetic (no true division, float literal or float call)", floor=3)
     r.rule("R19.5", "real_samples: for every sample count 2..33, 100, 1000 and ten bit-pattern distances up to 2**63-1 the offsets start at 0, end at the distance, never decrease and are equally spaced up to one unit", floor=3)
+    r.rule("R19.7", "real_samples: in a single-sign branch entered under a non-strict comparison of a bound with zero, the bit pattern of that bound is taken from a sign-normalised value (a zero of the other sign passes the comparison)", floor=2)
     r.rule("R19.6", "real_samples: the recursive negative part starts at the requested min_value, the positive part ends at the requested max_value, both with the caller's dtype and include_subnormal", floor=6)
     r.rule("R19.2", "product generators forward every shared option unchanged and axis k's size/bounds to the k-th inner call", floor=30)
 
@@ -295,6 +330,7 @@ def run(repo, tier):
 
     # ------------------------------------------------------------------ R19.3 bounds are adjusted before they are used
     check_bounds_adjusted_before_use(r, repo, f)
+    check_zero_bound_bit_pattern(r, repo, f0)
 
     # ------------------------------------------------------------------ R19.2
     callee_params = {}
